@@ -85,7 +85,7 @@ func c13Ops(w *World) [][]Op {
 					// (an add succeeds only on an absent id, a delete only on a present one)
 					uniq++
 					ops = append(ops, Op{K: pick(r, []string{"add", "add", "del"}), Idx: c13Hot, ID: fmt.Sprintf("s%d", r.Intn(2)), Vec: genVec(r, 3), Meta: map[string]any{"owner": float64(c), "u": float64(uniq*10 + c)}})
-				case x == 2 && r.Intn(2) == 0:
+				case x == 2:
 					// metadata updates and reinforcements of the shared ids too: the per-node lock of a node somebody
 					// else is deleting right now, with a snapshot asking for the write gate in between
 					uniq++
@@ -114,7 +114,7 @@ func c13Ops(w *World) [][]Op {
 					ops = append(ops, Op{K: "del", Idx: c13Hot, ID: fmt.Sprintf("c%dn%d", c, 1+r.Intn(own))})
 				}
 			case 9:
-				ops = append(ops, Op{K: pick(r, []string{"link", "unlink"}), Idx: c13Hot, ID: pick(r, []string{"hot", "a", "b"}), ID2: pick(r, []string{"hot", "a", "b"}), Rel: "r", W: 1})
+				ops = append(ops, Op{K: pick(r, []string{"link", "link", "unlink"}), Idx: c13Hot, ID: pick(r, []string{"hot", "a", "b"}), ID2: pick(r, []string{"hot", "a", "b"}), Rel: "r", W: 1, Hard: r.Intn(3) == 0})
 			case 10:
 				q := Op{K: "q_search", Idx: pick(r, []string{c13Hot, c13Churn}), Vec: genVec(r, 3), KK: 5}
 				if r.Intn(2) == 0 {
@@ -580,6 +580,47 @@ func runC13(w *World, tr *Trace) {
 		if !w.Failed() {
 			checkShared(e2, "after restart")
 		}
+		if !w.Failed() {
+			if why := c13EdgeViews(e2); why != "" {
+				w.Fail("per_item_serial", "edge_views_disagree", "after restart: "+why, -1)
+			}
+		}
+		if !w.Failed() {
+			// an edge that was linked (acknowledged before Close was invoked) and that nobody ever tried to unlink is
+			// still there after the restart, whatever snapshots and compactions ran next to other unlinks
+			type ed struct{ s, t string }
+			linked, unlinked := map[ed]bool{}, map[ed]bool{}
+			for _, rc := range recs {
+				if rc.op.Idx != c13Hot || rc.op.Rel != "r" {
+					continue
+				}
+				k := ed{rc.op.ID, rc.op.ID2}
+				switch rc.op.K {
+				case "link":
+					if rc.err == nil && (closeInvoke < 0 || rc.ret < closeInvoke) {
+						linked[k] = true
+					}
+				case "unlink":
+					unlinked[k] = true
+				}
+			}
+			for k := range linked {
+				if unlinked[k] {
+					continue
+				}
+				out, _ := e2.VGetLinks(c13Hot, k.s, "r")
+				found := false
+				for _, t := range out {
+					if t == k.t {
+						found = true
+					}
+				}
+				if !found {
+					w.Fail("per_item_serial", "edge_lost_after_restart", fmt.Sprintf("after restart: edge %s -r-> %s was linked (acknowledged) and never unlinked, VGetLinks(%s) = %v", k.s, k.t, k.s, out), -1)
+					break
+				}
+			}
+		}
 		e2.Close()
 		settle()
 		w.Res.SimNS = int64(time.Since(w.Start))
@@ -653,6 +694,10 @@ func c13Structure(w *World, where string) {
 			return
 		}
 	}
+	if why := c13EdgeViews(w.E); why != "" {
+		w.Fail("per_item_serial", "edge_views_disagree", where+": "+why, -1)
+		return
+	}
 	idx, ok := w.E.DB.GetVectorIndex(c13Hot)
 	if !ok {
 		return
@@ -720,6 +765,30 @@ func c13Structure(w *World, where string) {
 			w.Fail("graph_sound_after_concurrent_maintenance", "search_returns_nothing", fmt.Sprintf("%s: %d ids are listed, VSearch returns none", where, len(seen)), -1)
 		}
 	}
+}
+
+// c13EdgeViews: after concurrent links and unlinks of the same few edges, the outgoing and the incoming view of
+// every edge agree (C10's clause, asked after a concurrent history).
+func c13EdgeViews(e *engine.Engine) string {
+	nodes := []string{"hot", "a", "b"}
+	for _, s := range nodes {
+		out, _ := e.VGetLinks(c13Hot, s, "r")
+		for _, t := range nodes {
+			in, _ := e.VGetIncoming(c13Hot, t, "r")
+			has := func(l []string, x string) bool {
+				for _, y := range l {
+					if y == x {
+						return true
+					}
+				}
+				return false
+			}
+			if has(out, t) != has(in, s) {
+				return fmt.Sprintf("edge %s -r-> %s: listed by VGetLinks(%s)=%v, listed by VGetIncoming(%s)=%v", s, t, s, has(out, t), t, has(in, s))
+			}
+		}
+	}
+	return ""
 }
 
 // idRegisterLinearizable: per shared id (s0, s1 of the hot index) the acknowledged and refused adds and deletes
